@@ -108,10 +108,12 @@ func opAnalyze(c *ExecCase) map[string]any {
 	res["diags"] = diags
 	res["errorCount"] = check.GetErrorsCount()
 	// message rendering must not panic either
+	msgs := []string{}
 	if p := safely(func() {
 		for _, d := range check.Diagnostics {
-			_ = d.Kind.Message()
+			msgs = append(msgs, d.Kind.Message())
 		}
+		res["messages"] = msgs
 	}); p != "" {
 		res["messagePanic"] = p
 	}
